@@ -264,6 +264,12 @@ class Ctx:
     def violation(self, what, replay, fingerprint=None):
         """A concrete failing input on the real code."""
         fp = fingerprint or {}
+        if fp:
+            key = json.dumps(fp, sort_keys=True, default=str)
+            if key in getattr(self, "_seen_fp", set()):
+                self.count("duplicate_violations_suppressed")
+                return False
+            self.__dict__.setdefault("_seen_fp", set()).add(key)
         e = self.match_known(fp) if fp else None
         if e is not None:
             line = "KNOWN-FINDING: property=%s %s" % (self.pid, e["what"])
